@@ -5,7 +5,7 @@ hooks=["09edb0e","a04e5eb","f254399","bbd02c1","a0d1070","92a1c3d"]
 NOTE="Trusted: the cfg(mini_moka_verif) hooks in /repo (mock clock, read-only snapshot/walker/estimate accessors, component facades, switch points), the reference model and oracles in /verif/harness/src, proptest 1.11. Exploration only: nothing is claimed about inputs, histories or schedules that were not generated."
 props={
  "C01":(["seq"],"reference-model PBT (proptest), safety direction","Every lookup result of generated histories on both caches is compared with a reference model: it must be nothing or the most recent, non-invalidated insert of that key. Held on all generated histories, incl. lookups while the key's own operations were still queued."),
- "C02":(["sched"],"PBT over generated thread schedules (cooperative scheduler at cfg-guarded switch points) with a per-key history oracle; exhaustive litmus enumeration up to 2 preemptions","Programs of 2-4 real threads whose schedule is a generated, shrinkable list of preemptions; every get must return nothing or a value whose insert was not superseded by a write that completed before the get began; per-writer order never observed backwards; after quiescence the cache holds nothing or a last value per key."),
+ "C02":(["sched"],"PBT over generated thread schedules (cooperative scheduler at cfg-guarded switch points) with a per-key history oracle; exhaustive litmus enumeration up to 2 preemptions","Programs of 2-4 real threads whose schedule is a generated, shrinkable list of preemptions; every get must return nothing or a value whose insert was not superseded by a write that completed before the get began; per-writer order never observed backwards; after quiescence the cache holds nothing or a last value per key. Under uncontrolled real threads additionally: a value a reader saw replaced never comes back once the replacing insert has completed, and a key's only writer reads back nothing or its last value while admissions evict its entries."),
  "C03":(["seq"],"reference-model PBT, completeness direction + fits clause","Where capacity cannot bind (none, or >= the history's weight bound) every model-live entry must be shown by get/contains_key/iter after every step; for bounded caches every insert that fits in the physically remaining room must be retained and evict nothing (checked at quiescent points)."),
  "C04":(["seq"],"invariant PBT over physical residents","Sum of physical resident weights (snapshot hook) against max_capacity after every operation (unsync, with the growing-update allowance) and after sync() (concurrent); oversized fresh inserts never retained."),
  "C05":(["seq"],"deadline-invariant PBT with boundary-directed clock steps","No lookup may show a value at or after its own insert reading + ttl; clock steps are resolved against the model deadline (-1/0/+1 ns)."),
@@ -15,9 +15,9 @@ props={
  "C09":(["seq"],"bounded-termination PBT on bursts","Single-thread bursts far beyond the write-queue size in both housekeeping regimes; retry budget through the switch-point callback, watchdog + replay for hangs, queues empty after sync()."),
  "C10":(["seq"],"counter-vs-physical-snapshot PBT","entry_count()/weighted_size() against the physical map (snapshot hook) after every op (unsync) / at every quiescent point (concurrent), plus the iteration cross-check."),
  "C11":(["seq"],"drop-tracking PBT","Instrumented key/value types with a per-case registry: no double drop, live objects == resident entries at quiescent points, expired entries released once maintenance ran, registry empty after dropping the cache (also with ops still queued)."),
- "C12":(["seq"],"predictive-model PBT (LRU victims)","A lock-step recency model predicts the exact resident set after every step (shortest LRU prefix for admissions and for excess after growth); any other victim set is reported."),
- "C13":(["seq"],"predictive-model PBT (TinyLFU decision from the implementation's own estimates)","Before each newcomer the implementation's estimates are read through the hook; admit iff estimate(candidate) > sum of estimates of the shortest LRU prefix covering its weight; decision and untouched residents on rejection are compared."),
- "C14":(["seq","sketch"],"component PBT against an exact counter model (+ bounded-exhaustive tiny universes); cache-clause PBT","Sketch facade against an exact per-counter and per-hash model over capacities 0..2^20+1 with uniform, skewed and parity-directed hash sequences; estimates of the whole key universe read after every cache step: only get may change them."),
+ "C12":(["seq"],"predictive-model PBT (LRU victims; one model step per maintenance run on the concurrent cache) + eviction-amount invariant","A lock-step recency model predicts the exact resident set after every step - on the concurrent cache after every maintenance run, also for free-running histories (shortest LRU prefix for admissions and for excess after growth); any other victim set is reported. Independently of the model, for caches of any size: the weight evicted in a step never exceeds what the shortest LRU prefix explains."),
+ "C13":(["seq"],"predictive-model PBT (TinyLFU decision from the implementation's own estimates, per maintenance run on the concurrent cache)","Before each newcomer the implementation's estimates are read through the hook; admit iff estimate(candidate) > sum of estimates of the shortest LRU prefix covering its weight; decision and untouched residents on rejection are compared."),
+ "C14":(["seq","sketch"],"component PBT against an exact counter model (+ bounded-exhaustive tiny universes); cache-clause PBT","Sketch facade against an exact per-counter and per-hash model over capacities 0..2^20+1 with uniform, skewed and parity-directed hash sequences; estimates of the whole key universe read after every cache step: only get may change them, by at most one per call, and every get that was not dropped by a full read queue raises the estimate (lower bound over stretches without an aging step)."),
  "C15":(["seq"],"metamorphic PBT (h vs h' with extra observations)","Pairs of histories differing only by extra contains_key/iter calls must give identical results for all other lookups; on the concurrent cache the extra calls must leave queues, LRU order and estimates untouched."),
  "C16":(["seq"],"reference-model PBT on iteration","Every iteration compared with model and physical snapshot: no duplicates, nothing dead, nothing live missing."),
  "C17":(["cfg"],"PBT over builder call lists + differential histories between equivalent configurations","policy() round-trip, build panics iff a duration exceeds 1000 years (documented message), and equivalent configurations (initial_capacity, default weight 1, new(n) vs builder) behave identically on short histories."),
